@@ -216,7 +216,7 @@ theorem aligned_rook_iff (a b : Sq) : aligned rookDirs a b = true ↔
     a ≠ b ∧ (a.file = b.file ∨ a.rank = b.rank) := by
   have ha := Sq.coord_bounds a
   have hb := Sq.coord_bounds b
-  rw [aligned_iff, Sq.eq_iff_coord]
+  rw [aligned_iff, ne_eq, Sq.eq_iff_coord a b]
   constructor
   · rintro ⟨u, hu, n, hn⟩
     rw [onRay_iff] at hn
@@ -240,7 +240,7 @@ theorem aligned_bishop_iff (a b : Sq) : aligned bishopDirs a b = true ↔
     a ≠ b ∧ (b.file - a.file).natAbs = (b.rank - a.rank).natAbs := by
   have ha := Sq.coord_bounds a
   have hb := Sq.coord_bounds b
-  rw [aligned_iff, Sq.eq_iff_coord]
+  rw [aligned_iff, ne_eq, Sq.eq_iff_coord a b]
   constructor
   · rintro ⟨u, hu, n, hn⟩
     rw [onRay_iff] at hn
